@@ -294,7 +294,7 @@ def gen_mutation(rng: random.Random, tier: str) -> dict:
 
 
 def gen_flags(rng: random.Random, tier: str) -> dict:
-    g = c01.Gen(rng, False, 2, names=["a", "b", "c", "x1", "f(a)", "`q|r`", "`s~t`", "{a|b}", "g(a, '~')"])
+    g = c01.Gen(rng, False, 2, names=["a", "b", "c", "x1", "f(a)", "`q|r`", "`s~t`", "{a|b}", "g(a, '~')"], bad_exponents=False)
     kind = rng.choice(["twosided", "multipart", "multistage", "none"])
     rhs = c01.render_chain(c01.fix_chain(g.sumchain(2)), rng)
     lhs = c01.render_chain(c01.fix_chain(g.sumchain(1, small=True)), rng)
